@@ -26,4 +26,4 @@ JOBS = {"quick": 14, "thorough": 16}
 
 def cases(tier, seed):
     progs = _bfsprop.programs(tier, regen_only=(PROPERTY == "C07"))
-    return _bfsprop.make_cases(PROPERTY, KINDS, tier, seed, progs)
+    return _bfsprop.make_cases(PROPERTY, KINDS, tier, seed, progs, wide_args=(PROPERTY == "C05"))
